@@ -98,6 +98,7 @@ FILLS = [
     ('fill_value_false', {'fill_value': False}),
     ('keyword', {'K': -1, 'F': 8.5, 'Y': -2.0, 'status': 'X'}),
     ('both', {'fill_value': 7, 'S': 'q', 'X': 0.25, 'iterations': 99}),
+    ('fractional', {'fill_value': 0.5, 'Q': -0.25, 'I32': 0.75, 'Y': 0.5, 'iterations': 7.9}),   # |v| < 1: truthy for a bool variable, 0 for an integer one
     ('unknown', {'fill_value': 0, 'Nope': 1}),
     ('falsy-keywords', {'fill_value': 7, 'K': 0, 'F': 0.0, 'S': '', 'Q': False, 'I32': 0, 'X': 0.0, 'Y': 0, 'status': '', 'iterations': 0}),
 ]
@@ -142,7 +143,7 @@ def run_case(case):
     if objkind != 'container':
         kwargs = {k: v for k, v in kwargs.items() if k in ('fill_value', 'Nope', 'status', 'iterations', 'X', 'Y')}
     else:
-        kwargs = {k: v for k, v in kwargs.items() if k in ('fill_value', 'Nope', 'F', 'K', 'S', 'Q', 'I32')}
+        kwargs = {k: v for k, v in kwargs.items() if k in ('fill_value', 'Nope', 'F', 'K', 'S', 'Q', 'I32', 'U8')}
     if strict is not None:
         kwargs['strict'] = strict
     if case.get('obj_strict'):
@@ -234,16 +235,18 @@ def run_pandas_case(case):
     old_idx, new_idx, (tk_old, tk_new) = case['old'], case['new'], case['types']
     a = make_obj('pmodel-partly', mk_span(tk_old, old_idx), len(old_idx))
     b = make_obj('model-partly', mk_span(tk_old, old_idx), len(old_idx))
-    try:
-        ra = a.reindex(mk_span(tk_new, new_idx))
-    except Exception as e:
-        return [('pandas:exception:%s' % type(e).__name__, 'as base reindex', repr(e)[:200], 'pandas extension with default arguments raised')]
-    rb = b.reindex(mk_span(tk_new, new_idx))
     out = []
-    for name in rb.index:
-        if canon(ra[name]) != canon(rb[name]):
-            out.append(('pandas:differs', rb[name].tolist(), ra[name].tolist(), 'pandas extension with default arguments differs from base reindex in %s' % name))
-            break
+    # with no pandas filling method requested the extension IS the base reindex, fill values included
+    for fills in ({}, {'fill_value': 7}, {'X': 0.25}, {'fill_value': 0.0, 'Y': -2.0}):  # (fills for status / iterations are not honoured by the extension on any version: not demanded)
+        try:
+            ra = a.reindex(mk_span(tk_new, new_idx), **fills)
+        except Exception as e:
+            return [('pandas:exception:%s' % type(e).__name__, 'as base reindex', repr(e)[:200], 'pandas extension without a filling method raised (fills %r)' % (fills,))]
+        rb = b.reindex(mk_span(tk_new, new_idx), **fills)
+        for name in rb.index:
+            if canon(ra[name]) != canon(rb[name]):
+                out.append(('pandas:differs' + (':fills' if fills else ''), rb[name].tolist(), ra[name].tolist(), 'pandas extension without a filling method differs from base reindex in %s (fills %r)' % (name, fills)))
+                return out
     return out
 
 
